@@ -102,6 +102,8 @@ if f2: S["maxProperties"] = n
     "object_with_comp": ("m: int, d: Union[int, None]", [], 'S = {"type": "object", "title": "OC", "properties": {"a": {"minimum": m}}, "oneOf": [{"required": ["a"]}, {"required": ["b"]}], "default": d}', "quick"),
     "nested_comp": ("m: int", [], 'S = {"not": {"anyOf": [{"allOf": [{"minimum": m}, {"type": "integer"}]}, {"not": {"type": "null"}}]}}', "thorough"),
     "bools": ("b: bool, c: bool", [], 'S = {"properties": {"p": b}, "items": c, "contains": b, "propertyNames": c, "not": b, "dependencies": {"a": c}}', "quick"),
+    "empties": ("f: bool", [], 'S = {"default": [], "enum": [[], {}, "", 0, False, None], "const": {}, "required": [], "items": [], "properties": {}, "patternProperties": {}, "dependencies": {}, "additionalItems": f}', "quick"),
+    "falsy_defaults_everywhere": ("f: bool", [], 'S = {"type": "object", "title": "FD", "default": {}, "properties": {"a": {"type": "array", "default": []}, "b": {"type": "string", "default": ""}, "c": {"type": ["boolean", "null"], "default": f}, "d": {"anyOf": [{"type": "integer"}, {"type": "null"}], "default": (None if f else 0)}, "e": {"type": "object", "title": "FE", "default": {}}}}', "quick"),
     "floats": ("m: int", [], 'S = {"type": "number", "minimum": 0.5, "maximum": m, "multipleOf": 0.25, "const": 1.0, "enum": [1, 1.0, True]}', "thorough"),
 }
 
@@ -121,6 +123,8 @@ return python_roundtrip_ok(S)
 """
             hs.append(mk(f"c06_python_{name}", args, pre, body, tier=tier, timeout=45, group="python", expect="unknown",
                          covers="exec(serialize_python(parse(S))) defines classes equal to the parsed ones (realised text)"))
+    hs.append(mk("c06_python_description_pool", "i: int", ["0 <= i < 14"], "from vf.props.C07 import docstring_readback_ok, DESC_POOL\nreturn docstring_readback_ok(concretize_int(i, 0, len(DESC_POOL) - 1))", timeout=120, group="python",
+                 covers="generated classes for descriptions with unusual whitespace equal the parsed ones (exec)"))
     hs.append(mk("c06__reach", "m: int", [], 'return not (m == 7 and roundtrip_ok({"type": "integer", "minimum": m}))', kind="witness", timeout=20))
     return hs
 
